@@ -21,8 +21,11 @@
    every recorded run (CascadeTrace), and (b) a rejected run can name its first failing clause.
 
    The same module enumerates the LAUNCH CONFIGURATIONS (spec -> code): states `ic` over the
-   lattice  offset in {0,+-1,+-3}^3 m, attitude = signed integer quaternion of QLat(QK) with
-   rotation angle <= 60 deg, velocity / body rate in {-1,0,1}^3, both control modes
+   lattice  offset in {0,+-1,+-3}^3 m, attitude error q = signed integer quaternion of QLat(3)
+   with rotation angle <= 60 deg, velocity / body rate in {-1,0,1}^3, both control modes, and a
+   commanded heading `yaw` (a z-axis integer quaternion: 0, +-90, 180, 53, -127 deg); the launch
+   attitude is q0 = yaw * q (exact product), i.e. the vehicle starts within 60 deg of the
+   commanded hover attitude, whose body frame differs from the world frame unless yaw = 0
    (INIT ICInit / NEXT ICNext, dumped with -dump and replayed by harness/cascade.py).      *)
 EXTENDS Rot, FiniteSets, TLC
 
@@ -56,33 +59,49 @@ AngleLe60(q) == q[1] * q[1] >= 3 * (q[2] * q[2] + q[3] * q[3] + q[4] * q[4])
 AngleEq60(q) == q[1] * q[1] = 3 * (q[2] * q[2] + q[3] * q[3] + q[4] * q[4])
 Tilts(K) == { q \in QLat(K) : AngleLe60(q) /\ Primitive(q) }
 
+Yaws == << <<1, 0, 0, 0>>, <<1, 0, 0, 1>>, <<0, 0, 0, 1>>, <<1, 0, 0, -1>>, <<2, 0, 0, 1>>, <<1, 0, 0, -2>> >>
+IsYaw(y) == y[2] = 0 /\ y[3] = 0 /\ y # <<0, 0, 0, 0>>
+
 ICOK(c) == /\ c.mode \in Modes
+           /\ IsYaw(c.yaw) /\ c.q0 = QMul(c.yaw, c.q)
            /\ \A i \in 1..3 : c.off[i] \in {0, 1, -1, 3, -3} /\ c.vel[i] \in {-1, 0, 1} /\ c.rate[i] \in {-1, 0, 1}
            /\ c.q # <<0, 0, 0, 0>> /\ AngleLe60(c.q)
 
 QHash(q) == (q[1] + 4) + 9 * (q[2] + 4) + 81 * (q[3] + 4) + 729 * (q[4] + 4)
 MI(mode) == IF mode = "mellinger" THEN 0 ELSE 1
-MkIC(mode, q, n) ==
-    LET h == QHash(q) mi == MI(mode) IN
-    [kind |-> "ic", mode |-> mode, q |-> q, n |-> n,
+MkICy(mode, q, n, h, mi, y) ==
+    [kind |-> "ic", mode |-> mode, q |-> q, n |-> n, yaw |-> y, q0 |-> QMul(y, q),
      off  |-> OffAt((37 * h + 61 * n + 17 * mi) % 125),
      vel  |-> UnitAt((11 * h + 5 * n + 7 * mi + 3) % 27),
      rate |-> UnitAt((13 * h + 8 * n + 2 * mi + 5) % 27)]
+(* n >= 1: heading command 0 (the simulator's own initial psi_sp -- the domain the property lists);
+   n = 0 : one launch per seed with a commanded heading /= 0 (reported, not alarming: the property
+           does not list the commanded heading)                                                   *)
+MkIC(mode, q, n) == MkICy(mode, q, n, QHash(q), MI(mode),
+                          IF n = 0 THEN Yaws[2 + (((QHash(q) % 13) + 3 * MI(mode)) % 5)] ELSE Yaws[1])
+HeadingZero(c) == c.yaw[4] = 0 /\ c.yaw[1] > 0
 
 (* quick: hand-picked attitudes (identity, 53 deg roll, exactly 60 deg about (1,1,1) and about
    (1,-1,1) with NEGATIVE scalar part, 53 deg pure yaw, 50 deg with negative scalar part)     *)
 QuickTilts == { <<1, 0, 0, 0>>, <<2, 1, 0, 0>>, <<3, 1, 1, 1>>, <<-3, 1, -1, 1>>, <<2, 0, 0, 1>>, <<-3, 0, 1, -1>> }
 SeedTilts == IF Tier = "thorough" THEN Tilts(3) ELSE QuickTilts
 PerSeed   == IF Tier = "thorough" THEN 4 ELSE 1
+HeadingTilts == IF Tier = "thorough" THEN SeedTilts ELSE { <<1, 0, 0, 0>>, <<3, 1, 1, 1>> }
 NoObs     == [k |-> -1]
 
 ICInit == /\ obs = NoObs
           /\ \E mode \in Modes, q \in SeedTilts : ic = [kind |-> "seed", mode |-> mode, q |-> q]
 ICNext == /\ ic.kind = "seed"
-          /\ \E n \in 1..PerSeed : ic' = MkIC(ic.mode, ic.q, n)
+          /\ \E n \in 0..PerSeed : /\ n = 0 => ic.q \in HeadingTilts
+                                   /\ ic' = MkIC(ic.mode, ic.q, n)
           /\ UNCHANGED obs
-ICInv  == ic.kind = "ic" => ICOK(ic)
+ICInv  == ic.kind = "ic" => ICOK(ic) /\ (HeadingZero(ic) <=> ic.n >= 1)
 ICSeedInv == ic.kind = "seed" => AngleLe60(ic.q) /\ Primitive(ic.q)
+(* the heading pre-rotation does not change the tilt: body z of q0 and of q have the same world-z
+   component (QMat[3][3]/N), and q0 is the same rotation as Rz(yaw) * R(q)                       *)
+ICTiltInv == ic.kind = "ic" =>
+               /\ QMat(ic.q0)[3][3] * QNorm(ic.q) = QMat(ic.q)[3][3] * QNorm(ic.q0)
+               /\ QMat(ic.q0) = M3Mul(QMat(ic.yaw), QMat(ic.q))
 
 (* ------------------------------------------------------------------------------------ *)
 (* clauses of the property over an observation record x (c = launch configuration)        *)
@@ -166,7 +185,8 @@ MCObs(kk, md) ==
        imax |-> <<0, 0, 0>>, zi |-> 0, zmax |-> 0, nan |-> nn] :
       ee \in {0, PosMax, PosMax + 1, 3000}, tt \in {0, TiltMax, TiltMax + 1}, rr \in {0, RateMax + 1},
       mm \in {0, 10, 11}, nn \in {0, 1} }
-MCIC   == [kind |-> "ic", mode |-> "mellinger", q |-> <<1, 0, 0, 0>>, n |-> 1, off |-> <<3, 0, 0>>,
+MCIC   == [kind |-> "ic", mode |-> "mellinger", q |-> <<1, 0, 0, 0>>, yaw |-> <<1, 0, 0, 1>>, q0 |-> <<1, 0, 0, 1>>,
+           n |-> 1, off |-> <<3, 0, 0>>,
            vel |-> <<0, 0, 0>>, rate |-> <<0, 0, 0>>]
 MCInit == ic = MCIC /\ obs \in { x \in MCObs(0, ic.mode) : Envelope(ic, x) }
 MCNext == \E x \in MCObs(obs.k + 1, obs.mode) : Envelope(ic, x) /\ Step(x)
